@@ -90,7 +90,7 @@ func opPut(g *G) bool {
 	// prefer holdings whose class the basket allows
 	var okH []holding
 	for _, h := range hs {
-		if cl := v.ClassOfBatch(h.Batch); cl != nil && v.BasketClasses[b.ID][cl.ID] {
+		if monitor.PutAdmissible(v, b, h.Batch) {
 			okH = append(okH, h)
 		}
 	}
@@ -179,11 +179,27 @@ func opTake(g *G) bool {
 	if amt.Sign() == 0 {
 		amt = big.NewInt(1)
 	}
+	if amt.Cmp(have) > 0 && !(g.bad() && g.R.Chance(1, 3)) {
+		// the owner does not hold that much: collect tokens from the other holders first (bank sends
+		// of basket tokens), and fall back to the owner's holdings if that is not enough
+		for j, u := range us {
+			if u == us[i] || have.Cmp(amt) >= 0 {
+				continue
+			}
+			res := g.Do(g.App.MsgBankSend(u, us[i], sdk.NewCoins(sdk.NewCoin(b.Denom, sdk.NewIntFromBigInt(amts[j])))), "bank send: collect basket tokens for a take")
+			if res.OK {
+				have = new(big.Int).Add(have, amts[j])
+			}
+		}
+		if amt.Cmp(have) > 0 && kind != "everything+1" {
+			amt, kind = new(big.Int).Set(have), "all-holdings"
+		}
+	}
 	g.bump("take:" + kind)
 	retire := !b.DisableAutoRetire
 	if b.DisableAutoRetire {
 		retire = g.R.Bool()
-	} else if g.bad() {
+	} else if g.bad() && g.R.Chance(1, 2) {
 		retire = false
 	}
 	g.bump(fmt.Sprintf("take:retire_on_take=%v/auto-retire-disabled=%v", retire, b.DisableAutoRetire))
@@ -267,6 +283,9 @@ func (g *G) expiration() *time.Time {
 		t := g.now.Add(time.Nanosecond)
 		return &t
 	default:
+		if g.badPct == 0 {
+			return nil
+		}
 		t := g.now.Add(-time.Duration(g.R.Intn(100)) * time.Second) // now or in the past: rejected
 		return &t
 	}
@@ -283,12 +302,15 @@ func opSell(g *G) bool {
 	part := new(big.Rat).Quo(h.T, big.NewRat(int64(n), 1))
 	var orders []*market.MsgSell_Order
 	note := "sell"
+	saved := g.badPct
 	for i := 0; i < n; i++ {
 		q, k := g.amount(part)
 		g.bump("amount:" + k)
 		orders = append(orders, chain.SellOrder(h.Batch.Denom, q, bigCoin(g.askDenom(v), g.askAmount()), g.R.Bool(), g.expiration()))
 		note += " " + k
+		g.badPct = 0 // at most one deliberately invalid order per message
 	}
+	g.badPct = saved
 	seller := h.Acct
 	if g.bad() && g.R.Chance(1, 4) {
 		seller, note = g.otherUser(h.Acct), note+" — seller is not the holder"
@@ -431,14 +453,14 @@ func (g *G) buyOrder(v *monitor.View, o *monitor.Order) (*market.MsgBuyDirect_Or
 		q = new(big.Rat).Set(cur)
 		note = "full"
 		g.bump("buy:full")
-	case r < 80:
+	case r < 84:
 		q = rat(fmtRat(new(big.Rat).Mul(cur, big.NewRat(int64(1+g.R.Intn(99)), 100)), 6))
 		if q.Sign() == 0 {
 			q = new(big.Rat).Set(micro)
 		}
 		note = "partial"
 		g.bump("buy:partial")
-	case r < 90:
+	case r < 93:
 		q = new(big.Rat).Set(micro)
 		note = "dust"
 		g.bump("buy:0.000001")
@@ -452,7 +474,7 @@ func (g *G) buyOrder(v *monitor.View, o *monitor.Order) (*market.MsgBuyDirect_Or
 	switch r := g.R.Intn(100); {
 	case r < 50:
 		g.bump("buy:bid==ask")
-	case r < 85:
+	case r < 92:
 		bid.Add(bid, big.NewInt(int64(1+g.R.Intn(1000))))
 		g.bump("buy:bid>ask")
 	default:
@@ -474,15 +496,15 @@ func (g *G) buyOrder(v *monitor.View, o *monitor.Order) (*market.MsgBuyDirect_Or
 	fee := buyerFeeFloor(v, q, ask)
 	var maxFee *sdk.Coin
 	switch r := g.R.Intn(100); {
-	case r < 20:
+	case r < 10:
 		g.bump("buy:max-fee-absent")
 		note += ", no max fee"
 	case r < 65:
 		maxFee = bigCoin(denom, fee)
 		g.bump("buy:max-fee==trunc(fee)")
-	case r < 80:
+	case r < 88:
 		maxFee = bigCoin(denom, new(big.Int).Add(fee, big.NewInt(int64(1+g.R.Intn(100)))))
-	case r < 92:
+	case r < 95:
 		if fee.Sign() > 0 {
 			maxFee = bigCoin(denom, new(big.Int).Sub(fee, big.NewInt(1)))
 			note += ", max fee one less"
